@@ -1,4 +1,5 @@
 import CamVerif.Model.Reg
+import CamVerif.Model.RegUtf8
 import Driver.Util
 namespace Driver.C01
 open CamVerif CamVerif.Reg CamVerif.Wire Driver
@@ -122,8 +123,12 @@ def handle : List String → String
           fin (showRes (fun _ => "ok") r) d'
         | none => "bad-op"
       else if op == "str.value" then
+        -- answer: the bytes before the first NUL, and the UTF-8 bytes of the `String`
+        -- `String::from_utf8_lossy` makes of them (`Model/RegUtf8.lean`)
         let (r, d') := StringReg.value port addr len d
-        fin (showRes (fun v => s!"ok {bytesToHex v}") r) d'
+        let (r2, _) := StringReg.valueString port addr len d
+        let lossy := match r2 with | .ok w => bytesToHex w | _ => "?"
+        fin (showRes (fun v => s!"ok {bytesToHex v}|{lossy}") r) d'
       else if op == "str.set" then
         match hexToBytes arg with
         | some v =>
